@@ -115,6 +115,9 @@ func genScalar(t *rapid.T, kind, label string, zeroOK bool) desc.V {
 		return desc.V{U: clampUint(kind, v)}
 	case kind == "float32" || kind == "float64":
 		if zero {
+			if rapid.IntRange(0, 3).Draw(t, label+"NegZero") == 0 {
+				return desc.V{NegZero: true} // -0.0 is a zero value too
+			}
 			return desc.V{}
 		}
 		f := rapid.SampledFrom(floatPool).Draw(t, label)
@@ -588,7 +591,11 @@ func (g *structGen) genValueFor(ty desc.T, depth int) desc.V {
 		if rapid.IntRange(0, 3).Draw(g.t, "vNil") == 0 {
 			return desc.V{Nil: true}
 		}
-		return desc.V{E: []desc.V{g.genValueFor(*ty.Elem, depth)}}
+		pv := desc.V{E: []desc.V{g.genValueFor(*ty.Elem, depth)}}
+		if rapid.IntRange(0, 5).Draw(g.t, "vShare") == 0 {
+			pv.Share = rapid.IntRange(1, 3).Draw(g.t, "vShareIdx") // alias an earlier pointer of this type, if there is one
+		}
+		return pv
 	case "slice", "array":
 		n := rapid.IntRange(-1, 2).Draw(g.t, "vLen")
 		if ty.K == "array" {
@@ -639,7 +646,11 @@ func genValueRT(t *rapid.T, rt reflect.Type, depth, maxDepth int) desc.V {
 		if depth >= maxDepth || rapid.IntRange(0, 3).Draw(t, "nil") == 0 {
 			return desc.V{Nil: true}
 		}
-		return desc.V{E: []desc.V{genValueRT(t, rt.Elem(), depth, maxDepth)}}
+		pv := desc.V{E: []desc.V{genValueRT(t, rt.Elem(), depth, maxDepth)}}
+		if rapid.IntRange(0, 5).Draw(t, "share") == 0 {
+			pv.Share = rapid.IntRange(1, 3).Draw(t, "shareIdx") // alias an earlier pointer of this type, if there is one
+		}
+		return pv
 	case reflect.Slice:
 		n := rapid.SampledFrom([]int{-1, -1, 0, 1, 1, 2, 2, 3}).Draw(t, "len")
 		if depth >= maxDepth && rt.Elem().Kind() != reflect.String && rt.Elem().Kind() != reflect.Int {
